@@ -623,8 +623,12 @@ where
                     }
                 }
             }
-            Instruction::Next => todo!(),
-            Instruction::Last => todo!(),
+            // `Next` and `Last` are not implemented by this VM. A module
+            // containing them (hand-built or corrupted) must not take the
+            // host down.
+            Instruction::Next | Instruction::Last => {
+                return Err(self.err(MachineErrorType::InvalidInstruction));
+            }
             Instruction::Call(t) => match t {
                 Target::Unresolved(label) => {
                     return Err(self.err(MachineErrorType::UnresolvedTarget(label)));
